@@ -17,7 +17,7 @@ CHECKS = {
     'C02': dict(text='Proved: in every run history a submission for execution is preceded by the completion of every recorded dependency; an in-flight task reads exactly this run\'s dependency results and a failed dependency has no entry (C02_submit_after_deps, C02_reads_real_result, C02_finish_values). Discovery of nested dependencies is validated by the correspondence (nested tuple/list/dict parameters).',
                 design='6/C02', technique='Coq history invariant + differential correspondence', note=SCHED_NOTE),
     'C03': dict(text='Proved: the plan is duplicate-free and equals the dependency closure where cached tasks contribute no dependencies; no task is submitted twice; only needed tasks are submitted; use_cache flag equals the pre-state (C03_planned_is_needed, C03_submit_once_needed_cached). Instance marking (result_meta on every equal-but-distinct instance) is checked on the implementation by the monitor only.',
-                design='6/C03', technique='Coq BFS-planner correctness + history invariant + correspondence', note=SCHED_NOTE),
+                design='6/C03', technique='Coq BFS-planner correctness (task and object level) + history invariant + correspondence', note=SCHED_NOTE),
     'C04': dict(text='Proved for every reachable instant (incl. each single submission inside a submit phase and the state a failing run is abandoned in): per-type in-flight count <= max_parallel, given the comparison operator extracted from get_ready_tasks (C04_type_limit). Worker-process limit: see level_note.',
                 design='6/C04', technique='Coq invariant over reachable states + extracted operator + correspondence', note=SCHED_NOTE),
     'C05': dict(text='Proved: at every rest point no pending task is both dependency-complete and below its type limit (C05_rest_no_ready_left).',
@@ -86,6 +86,8 @@ CHECKS['C14'] = dict(
     text='Proved (Hoare logic over an exception+tick monad, IntrProofs.v): for every graph, worker count, oracle and every position of one or two interrupts among the ticks (entries/exits of start_task, submit_task, executor.submit, wait, Future.result, complete_task, remove_results, cancel, stop), once an interrupt has been delivered the run ends with KeyboardInterrupt - never a normal return, LabError, or the KeyError of a re-yielded task (C14_interrupt_raises_KeyboardInterrupt), given the pop-before-yield generator, the LabError-swallowing drain/stop code and cancel-before-stop read from the source; each ingredient is shown necessary by a model witness that was replayed on the implementation (C14_refuted_without). Clauses validated by injection rather than proved: no task started after the interrupt, running tasks finish and are cached, workers terminated after the second interrupt, cache consistency. PARTIAL: where a real signal lands in the bytecode and interrupted Manager-proxy calls are runtime behaviour; covered by line-level injection (every executed labtech line under serial in thorough) and real SIGINT runs.',
     design='6/C14', technique='Coq Hoare-logic proof over an interruptible coordinator model + exhaustive tick-level, line-level and real-signal injection',
     note='Theorems are about Model/Intr.v (TaskCoordinator.run try/except structure, process_completed_tasks, ProcessRunner.wait generator protocol, cancel/stop) with interrupts at ticks. Tie: Gen/SrcParams.v (pop-before-yield + KeyboardInterrupt let through in wait, drain loop / final call swallow LabError, cancel before stop, names bound before run_or_load_task\'s try) and correspondence: the same ticks are instrumented in the real code (monkeypatched method wrappers over gated real worker processes) and every single and sampled double interrupt position is compared (outcome, event trace, terminated workers). Print Assumptions: closed.')
+CHECKS['C03']['text'] += ' Object layer (Model/ObjPlan.v): the walk over task objects visits exactly the objects reachable from the requested objects without passing through a task served from the cache, each once, and its quotient by equality is the task-level plan (C03_object_walk_is_task_plan); completing a task marks every visited instance of it and no other object (C03_every_instance_marked); tied by comparing the marks left on real task objects with the model on every generated case.'
+CHECKS['C14']['text'] += ' Also proved: from whatever state the first interrupt leaves, the except-branch starts no worker process and records no submission, however it ends (C14_handler_starts_nothing; refuted for a second handler that stops without cancelling, C14_no_second_cancel_refuted); the number of worker starts of the model is compared with the processes really started in every tick-level run.'
 NOT_YET = {}
 
 
